@@ -73,7 +73,12 @@ def gen_procprog(rng: random.Random) -> dict:
         if depth >= 2 or r < 0.45:
             return leaf(in_tree, direct=(depth == 0))
         kind = "any" if r < 0.75 else "all"
-        return {kind: [gen_tree(depth + 1, in_tree) for _ in range(rng.randint(2, 3))]}
+        kids = [gen_tree(depth + 1, in_tree) for _ in range(rng.randint(2, 3))]
+        if rng.random() < 0.12:
+            leaves = [k for k in kids if "f" in k]
+            if leaves:   # the same future passed twice to one combinator
+                kids.insert(rng.randint(0, len(kids)), {"f": rng.choice(leaves)["f"]})
+        return {kind: kids}
 
     def gen_emit(existing_futs: bool = True) -> dict:
         if existing_futs and fut_counter[0] > 0 and rng.random() < 0.6:
@@ -81,6 +86,14 @@ def gen_procprog(rng: random.Random) -> dict:
                     "dt": rng.choice(DTS_NS)}
         note_counter[0] += 1
         return {"kind": "note", "id": note_counter[0] - 1, "dt": rng.choice(DTS_NS)}
+
+    prepared_pool = []      # events built before the run and handed out later as side effects
+
+    def gen_prepared():
+        j = len(prepared_pool)
+        note_counter[0] += 1
+        prepared_pool.append({"id": note_counter[0] - 1, "t": 500_000_000_000_000 + j})
+        return {"kind": "prepared", "idx": j}
 
     def gen_val():
         if fut_counter[0] > 0 and rng.random() < 0.08:
@@ -93,13 +106,19 @@ def gen_procprog(rng: random.Random) -> dict:
         for _ in range(rng.randint(1, budget)):
             r = rng.random()
             if r < 0.35:
+                emits = [gen_emit() for _ in range(rng.choice([0, 0, 1, 2]))]
+                if rng.random() < 0.15:
+                    emits.insert(rng.randint(0, len(emits)), gen_prepared())
                 steps.append({"op": "delay", "d": rng.choice(DELAYS_S),
-                              "emits": [gen_emit() for _ in range(rng.choice([0, 0, 1, 2]))],
+                              "emits": emits,
                               "form": rng.choice(["bare", "tuple", "single", "shared_empty"])})
                 if not steps[-1]["emits"] and rng.random() < 0.4:
                     steps[-1]["form"] = "shared_empty"
             elif r < 0.65:
                 steps.append({"op": "wait", "tree": gen_tree(0)})
+                if "f" in steps[-1]["tree"] and rng.random() < 0.2:
+                    # the same (by then resolved) future awaited once more by the same process
+                    steps.append({"op": "wait", "tree": {"f": steps[-1]["tree"]["f"]}, "again": True})
             elif r < 0.75:
                 k = slot_counter[0]
                 slot_counter[0] += 1
@@ -142,7 +161,7 @@ def gen_procprog(rng: random.Random) -> dict:
     plain = [{"t": rng.choice(TIMES_NS), "hook_emits": [gen_emit() for _ in range(rng.choice([0, 1, 1]))],
               "ret_shared": rng.random() < 0.6}
              for _ in range(rng.choice([0, 0, 1, 2, 3, 4]))]
-    return {"futures": fut_counter[0], "procs": procs, "initial": initial, "plain": plain,
+    return {"futures": fut_counter[0], "procs": procs, "initial": initial, "plain": plain, "prepared": prepared_pool,
             "loop": rng.choice(["auto", "fast", "control"])}
 
 
@@ -158,20 +177,30 @@ def validate(sc: dict) -> None:
     from simkit.world import InvalidScenario
 
     n = sc.get("futures", 0)
+    n_prep = len(sc.get("prepared", []))
+    if any(pe["t"] < 500_000_000_000_000 for pe in sc.get("prepared", [])):
+        raise InvalidScenario("prepared events lie beyond every other timestamp (never in the past when yielded)")
+    used_prep: set[int] = set()
     direct: set[int] = set()
 
-    def walk_tree(t, in_tree=None, top=True):
+    proc_direct: set[int] = set()
+
+    def walk_tree(t, in_tree=None, top=True, again=False):
         if in_tree is None:
             in_tree = set()
         if "f" in t:
             f = t["f"]
-            if not (0 <= f < n) or f in in_tree:
-                raise InvalidScenario("future out of range or twice in one tree")
+            if not (0 <= f < n):
+                raise InvalidScenario("future out of range")
             in_tree.add(f)
-            if top:
+            if top and not again:
                 if f in direct:
                     raise InvalidScenario("future yielded directly by two waits")
                 direct.add(f)
+            if top and again and f not in proc_direct:
+                raise InvalidScenario("re-await of a future this process never awaited")
+            if top:
+                proc_direct.add(f)
             return
         kids = t.get("any") or t.get("all")
         if not kids or len(kids) < 2:
@@ -182,6 +211,10 @@ def validate(sc: dict) -> None:
     def walk_emit(e):
         if e["kind"] == "resolve" and not (0 <= e["f"] < n):
             raise InvalidScenario("emit future out of range")
+        if e["kind"] == "prepared":
+            if not (0 <= e["idx"] < n_prep) or e["idx"] in used_prep:
+                raise InvalidScenario("prepared event out of range or used twice")
+            used_prep.add(e["idx"])
 
     def walk_steps(steps, slots):
         for s in steps:
@@ -190,7 +223,7 @@ def validate(sc: dict) -> None:
                 for e in s.get("emits", []):
                     walk_emit(e)
             elif op == "wait":
-                walk_tree(s["tree"])
+                walk_tree(s["tree"], again=bool(s.get("again")))
             elif op == "make":
                 if s["slot"] in slots:
                     raise InvalidScenario("slot reused")
@@ -209,6 +242,7 @@ def validate(sc: dict) -> None:
                 walk_steps(s["steps"], slots)
 
     for p in sc["procs"]:
+        proc_direct.clear()
         walk_steps(p["steps"], {})
         for e in p.get("ret_emits", []) + p.get("hook_emits", []):
             walk_emit(e)
@@ -381,6 +415,8 @@ class EngineWorld:
         return val
 
     def make_event(self, t_ns: int, e: dict) -> Event:
+        if e["kind"] == "prepared":
+            return self.prepared[e["idx"]]       # built before the run, handed to the engine only now
         if e["kind"] == "resolve":
             ev = Event(time=Instant(t_ns), event_type="resolve", target=self.resolver)
             ev.context["metadata"]["f"] = e["f"]
@@ -391,7 +427,7 @@ class EngineWorld:
         return ev
 
     def make_events(self, now_ns: int, emits) -> list[Event]:
-        return [self.make_event(now_ns + e["dt"], e) for e in emits]
+        return [self.make_event(now_ns + e.get("dt", 0), e) for e in emits]
 
     def build_tree(self, t):
         if "f" in t:
@@ -414,6 +450,12 @@ class EngineWorld:
             ev.context["metadata"]["idx"] = j
             ev.add_completion_hook(self._hook(("plain", j), pl.get("hook_emits", [])))
             out.append(ev)
+        # events prepared now (after everything that gets scheduled) but not scheduled: a process yields them later
+        self.prepared = []
+        for pe in self.sc.get("prepared", []):
+            ev = Event(time=Instant(pe["t"]), event_type="note", target=self.recorder)
+            ev.context["metadata"]["id"] = pe["id"]
+            self.prepared.append(ev)
         return out
 
     def _hook(self, who, emits):
@@ -519,6 +561,10 @@ class RefWorld:
 
     # --- events ---------------------------------------------------------
     def emit(self, now, e):
+        if e["kind"] == "prepared":
+            pe = self.sc["prepared"][e["idx"]]
+            self.push(pe["t"], "note", id=pe["id"])
+            return
         t = now + e["dt"] if "dt" in e else e["t"]
         if e["kind"] == "resolve":
             self.push(t, "resolve", f=e["f"], val=e["val"])
